@@ -412,7 +412,15 @@ class Folder:
                 args.extend(self.ev(a.value))
             else:
                 args.append(self.ev(a))
-        kw = {k.arg: self.ev(k.value) for k in c.keywords if k.arg}
+        kw = {}
+        for k in c.keywords:
+            if k.arg:
+                kw[k.arg] = self.ev(k.value)
+            else:
+                extra = self.ev(k.value)
+                if not isinstance(extra, dict):
+                    raise Unknown("** of a non-dict")
+                kw.update(extra)
         sname = c.func.attr if isinstance(c.func, ast.Attribute) else (c.func.id if isinstance(c.func, ast.Name) else None)
         if sname in self.sinks and not (isinstance(c.func, ast.Name) and sname in self.env):
             rec = (sname, [list(a) if isinstance(a, (list, tuple)) else a for a in args], {k: v for k, v in kw.items() if k != "check"})
@@ -434,6 +442,10 @@ class Folder:
                 return self.call_function(d, args, kw)
             finally:
                 self.globals = saved_g
+        if isinstance(c.func, ast.Name) and c.func.id in self.helpers and c.func.id not in self.env and \
+                (kw or self.helpers[c.func.id].args.vararg or self.helpers[c.func.id].args.kwarg or self.helpers[c.func.id].args.defaults or
+                 self.helpers[c.func.id].args.kwonlyargs or len(args) != len(self.helpers[c.func.id].args.args)):
+            return self._closure(self.helpers[c.func.id])(*args, **kw)
         if isinstance(c.func, ast.Name) and c.func.id in self.helpers:
             d = self.helpers[c.func.id]
             saved = dict(self.env)
@@ -683,6 +695,24 @@ class Folder:
                 raise Raised(_name(e) if e is not None else "")
             elif isinstance(s, ast.Pass):
                 pass
+            elif isinstance(s, ast.With):
+                managers = []
+                for item in s.items:
+                    cm = self.ev(item.context_expr)
+                    if isinstance(cm, Opaque) or isinstance(cm, types.SimpleNamespace) and not hasattr(cm, "__enter__"):
+                        v = cm
+                    elif hasattr(type(cm), "__enter__") or hasattr(cm, "__enter__"):
+                        v = cm.__enter__()
+                        managers.append(cm)
+                    else:
+                        raise Unknown("with-statement on %s" % type(cm).__name__)
+                    if item.optional_vars is not None:
+                        self.assign(item.optional_vars, v)
+                try:
+                    self.run(s.body)
+                finally:
+                    for cm in reversed(managers):
+                        cm.__exit__(None, None, None)
             elif isinstance(s, ast.Global):
                 self.env["__global_names__"] = set(self.env.get("__global_names__", ())) | set(s.names)
                 for nm in s.names:
